@@ -55,11 +55,20 @@ fn starts_with(a: &[u8], p: &[u8]) -> bool {
     r
 }
 
+/// The fragments are valid by construction ([a-z0-9_], constant suffix / root), so the values are
+/// built with `new_unchecked`: the validating constructors are C19's first half (c19.rs) and would
+/// only add solver time here.  The operations under test (path_for / extract_*) are the real ones.
 fn mk_cfg(prefix: &[u8], suffix: &[u8], root: &[u8]) -> KConfig {
-    KConfig::default()
-        .prefix(&FileName::new(prefix).unwrap())
-        .suffix(&FileName::new(suffix).unwrap())
-        .path_hint(&Path::new(root).unwrap())
+    unsafe {
+        KConfig::default()
+            .prefix(&FileName::new_unchecked(prefix))
+            .suffix(&FileName::new_unchecked(suffix))
+            .path_hint(&Path::new_unchecked(root))
+    }
+}
+
+fn mk_name(b: &[u8]) -> FileName {
+    unsafe { FileName::new_unchecked(b) }
 }
 
 /// (i) a name written by a domain is read back by the same domain, unchanged;
@@ -75,7 +84,7 @@ fn domain_isolation<const N1: usize, const N2: usize, const NN: usize>(only_rela
     }
     let cfg1 = mk_cfg(&p1[..n1], b".s", b"/r");
     let cfg2 = mk_cfg(&p2[..n2], b".s", b"/r");
-    let name = FileName::new(&nm[..nn]).unwrap();
+    let name = mk_name(&nm[..nn]);
     let file = cfg1.path_for(&name).file_name();
     assert!(file.len() == n1 + nn + 2);
     if only_related {
@@ -107,10 +116,10 @@ proof!(12, fn c19_domain_isolation_mixed_len() { domain_isolation::<1, 2, 2>(fal
 /// same root is the same domain
 proof!(12, fn c19_root_isolation() {
     let (nm, nn) = any_fragment(2);
-    let name = FileName::new(&nm[..nn]).unwrap();
+    let name = mk_name(&nm[..nn]);
     let cfg1 = mk_cfg(b"p", b".s", b"/r");
     let fp: FilePath = cfg1.path_for(&name);
-    assert!(fp.path() == Path::new(b"/r").unwrap(), "c19: created path is not under the configured root");
+    assert!(fp.path() == unsafe { Path::new_unchecked(b"/r") }, "c19: created path is not under the configured root");
     assert!(cfg1.extract_name_from_path(&fp).is_some(), "c19: a domain does not recognise its own path");
     let which: u8 = kani::any();
     kani::assume(which < 3);
